@@ -148,6 +148,8 @@ def _inputs_name(lfi) -> str:
 def _name_to_member_table(node: ast.expr, enum: str) -> int:
     """number of members if `node` maps the NAME of each listed member of `enum` to that member, else 0:
     {E.A.name: E.A, E.B.name: E.B}   |   {m.name: m for m in (E.A, E.B)}"""
+    if attr_chain(node) == f"{enum}.__members__":
+        return 99  # the enum's own table of every member by name
     if isinstance(node, ast.Dict) and node.keys:
         n = 0
         for k, v in zip(node.keys, node.values):
@@ -178,6 +180,8 @@ def _enum_local_from_string(fn: ast.FunctionDef, local: str, param: str, enum: s
             tab = v.func.value
         elif isinstance(v, ast.Subscript) and ast.unparse(v.slice) == param:
             tab = v.value
+        if isinstance(v, ast.Subscript) and attr_chain(v.value) == enum:
+            return True  # Enum[name]
         if isinstance(tab, ast.Name):
             local_defs = [s_ for s_ in ast.walk(fn) if isinstance(s_, ast.Assign) and any(isinstance(t_, ast.Name) and t_.id == tab.id for t_ in s_.targets)]
             if len(local_defs) == 1:
@@ -1088,6 +1092,8 @@ def _check_enums(prog: Program, res: Result, wfi, lfi):
             c = attr_chain(n_) if isinstance(n_, ast.Attribute) else None
             if c and c.startswith(enum + "."):
                 out.add(c.split(".")[1])
+            if c == f"{enum}.__members__" or (isinstance(n_, ast.Subscript) and attr_chain(n_.value) == enum) or (isinstance(n_, (ast.For, ast.comprehension)) and attr_chain(n_.iter) == enum):
+                out |= set(prog.enum_members(f"{EN}.{enum}"))  # looked up by name in the enum itself / iterated: every member
         return out
 
     def dict_key_members(fi, enum):
